@@ -1,3 +1,57 @@
+(** C12 — multiple traces: isolated, addressable by id, loaded set stays consistent.
+    Statements only; proofs in proofs/TraceProofs.v and proofs/NavProofs.v. *)
 From WalModel Require Import Eval.
-Theorem tmp : True. Proof. exact I. Qed.
-Print Assumptions tmp.
+From WalModel.proofs Require Import NavProofs TraceProofs.
+Local Open Scope Z_scope.
+
+(** tid^name yields exactly what name yields when only trace tid is loaded (value, width,
+    existence; INDEX/TS/MAX-INDEX are names too), at the same index *)
+Theorem qualified_is_single : forall c tid name t scope stack,
+  has_sep tid = false -> has_sep name = false -> alookup tid (c_traces c) = Some t ->
+  String.eqb name "SIGNALS" = false -> String.eqb name "VIRTUAL-SIGNALS" = false ->
+  cont_signal_value c (tid ++ String "^"%char name) scope =
+  cont_signal_value (mkCont [(tid, t)] 1 stack) name scope /\
+  cont_signal_width c (tid ++ String "^"%char name) = cont_signal_width (mkCont [(tid, t)] 1 stack) name /\
+  cont_contains c (tid ++ String "^"%char name) = cont_contains (mkCont [(tid, t)] 1 stack) name.
+Proof. exact qualified_equals_single. Qed.
+Print Assumptions qualified_is_single.
+
+(** the reported count equals the number of usable traces over every history of
+    load / unload / step operations *)
+Theorem loaded_set_consistent : forall ops c, count_ok c -> count_ok (fold_left apply_cop ops c).
+Proof. exact loaded_count_invariant. Qed.
+Print Assumptions loaded_set_consistent.
+
+(** loading or unloading one trace never changes another; stepping a named trace neither (C02) *)
+Theorem load_unload_isolation : forall c tid t k,
+  k <> tid ->
+  alookup k (c_traces (cont_add c tid t)) = alookup k (c_traces c) /\
+  alookup k (c_traces (cont_unload c tid)) = alookup k (c_traces c).
+Proof. exact load_unload_isolated. Qed.
+Print Assumptions load_unload_isolation.
+
+Theorem step_isolation : forall c n id t c' ended,
+  id <> "" -> alookup id (c_traces c) = Some t ->
+  cont_step c n (Some id) = Some (c', ended) ->
+  alookup id (c_traces c') = Some (fst (trace_step t n)) /\
+  (forall id', id' <> id -> alookup id' (c_traces c') = alookup id' (c_traces c)) /\
+  (ended = [] <-> in_range t n = true) /\
+  c_ntraces c' = c_ntraces c /\ c_stack c' = c_stack c.
+Proof. exact cont_step_named. Qed.
+Print Assumptions step_isolation.
+
+(** a load that fails (duplicate id, missing file) leaves the state exactly as it was;
+    an unsupported file type only prints a message *)
+Theorem failed_load_is_noop : forall file tid st,
+  (amem tid (c_traces (st_cont st)) = true -> load_m file (Some tid) st = Er EEval st) /\
+  (amem tid (c_traces (st_cont st)) = false ->
+   (String.eqb (file_ext file) ".vcd" || String.eqb (file_ext file) ".csv") = true ->
+   alookup file (st_fs st) = None -> load_m file (Some tid) st = Er EOther st) /\
+  (amem tid (c_traces (st_cont st)) = false ->
+   (String.eqb (file_ext file) ".vcd" || String.eqb (file_ext file) ".csv") = false ->
+   String.eqb (file_ext file) ".fst" = false ->
+   exists st', load_m file (Some tid) st = Ok tt st' /\ st_cont st' = st_cont st /\ st_frames st' = st_frames st).
+Proof. exact failed_loads_change_nothing. Qed.
+Print Assumptions failed_load_is_noop.
+
+Example count_nonvacuous : count_ok empty_container. Proof. reflexivity. Qed.
